@@ -377,6 +377,24 @@ pub fn run_c10(args: &Args, report: &mut Report) {
             .collect();
         let want = ref_loop(&c, &input);
         let mon = Arc::new(TagMonitor::default());
+        if case < args.skip {
+            continue;
+        }
+        {
+            let w = json!({"engine":"loopmon.rounds","case":case,"shard":args.shard,"seed":args.seed,"loop":c,"layout":layout.name(),"batch":format!("{batch:?}"),"policy":pname});
+            crate::report::RESUME_FROM.store(case + 1, Ordering::SeqCst);
+            crate::run::on_no_return(move |end, census, r| {
+                let mut d = w.clone();
+                d["census"] = crate::run::census_json(census);
+                if *end == crate::run::JobEnd::Deadlocked {
+                    d["error"] = json!("the loop never stops: quiescence certificate (every live engine thread parked, no event across three snapshots)");
+                    r.case(Verdict::Violated, None, || d);
+                } else {
+                    d["error"] = json!(format!("watchdog fired without a quiescence certificate ({end:?})"));
+                    r.case(Verdict::Inconclusive, None, || d);
+                }
+            });
+        }
         let (c2, input2, mon2) = (c.clone(), Arc::new(input.clone()), mon.clone());
         let res = run_job(
             &layout,
@@ -425,6 +443,7 @@ pub fn run_c10(args: &Args, report: &mut Report) {
             },
             |(st, out), _| (st.get(), out.map(|o| o.get())),
         );
+        crate::run::clear_no_return();
         let h = mix(hash_str(&format!("{c:?}")), hash_str(&format!("{}{batch:?}{pname}", layout.name())));
         let ctr = &res.log.counters;
         let detail = |err: Option<String>| json!({"engine":"loopmon.rounds","case":case,"shard":args.shard,"seed":args.seed,"loop":c,
@@ -546,6 +565,24 @@ pub fn run_c11(args: &Args, report: &mut Report) {
         let input: Vec<Rec> = (0..c.n as u64).map(|i| Rec { id: i + 1, k: crng.below(c.keys as u64) as u32, v: crng.range(1, 9) }).collect();
         let side: Vec<Rec> = (0..c.side_n as u64).map(|i| Rec { id: SIDE_BASE + i, k: crng.below(c.keys as u64) as u32, v: SIDE_V }).collect();
         let traces = TraceSink::new();
+        if case < args.skip {
+            continue;
+        }
+        {
+            let w = json!({"engine":"loopmon.side_input","case":case,"shard":args.shard,"seed":args.seed,"loop":c,"layout":layout.name(),"batch":format!("{batch:?}"),"policy":pname});
+            crate::report::RESUME_FROM.store(case + 1, Ordering::SeqCst);
+            crate::run::on_no_return(move |end, census, r| {
+                let mut d = w.clone();
+                d["census"] = crate::run::census_json(census);
+                if *end == crate::run::JobEnd::Deadlocked {
+                    d["error"] = json!("the loop with a side input does not terminate: quiescence certificate (every live engine thread parked, no event across three snapshots)");
+                    r.case(Verdict::Violated, None, || d);
+                } else {
+                    d["error"] = json!(format!("watchdog fired without a quiescence certificate ({end:?})"));
+                    r.case(Verdict::Inconclusive, None, || d);
+                }
+            });
+        }
         let (c2, in2, side2, tr2) = (c.clone(), Arc::new(input.clone()), Arc::new(side.clone()), traces.clone());
         let res = run_job(
             &layout,
@@ -624,6 +661,7 @@ pub fn run_c11(args: &Args, report: &mut Report) {
             },
             |st, _| st.get(),
         );
+        crate::run::clear_no_return();
         let h = mix(hash_str(&format!("{c:?}")), hash_str(&format!("{}{batch:?}{pname}", layout.name())));
         let detail = |err: Option<String>| json!({"engine":"loopmon.side_input","case":case,"shard":args.shard,"seed":args.seed,"loop":c,
             "layout":layout.name(),"batch":format!("{batch:?}"),"policy":pname,"error":err});
